@@ -49,6 +49,14 @@ func field(line, key string) string {
 // diffParseRun compares implementation and model on one source: PARSE, and if it
 // compiles, RUN without and with trace.  Returns the implementation's PARSE line.
 func diffParseRun(res *Result, d *Driver, src []byte, withRun bool) (implLine string) {
+	// observable semantics end to end: what the properties talk about
+	si, sm := implInterp(src), ask(d, "INTERP "+hx(src))
+	res.Eval(1)
+	if si != sm {
+		res.Fail(Failure{Kind: "oracle", Op: "INTERP " + hx(src), Input: string(src), Impl: si, Model: sm,
+			Expected: "the verdict, diagnostics, printed output, blocks, binding and error the language definition (Lean model, proved against the spec) gives"})
+		return si
+	}
 	op := fmt.Sprintf("PARSE %s %s 1", hxs("input"), hx(src))
 	impl := implParse("input", src, true)
 	model := ask(d, op)
